@@ -268,6 +268,10 @@ def run_failed_start(case):
                 while time.time() - t0 < 3 and sum(1 for x in made if x.machine.id == "leaf" and x.status == "running") < want:
                     time.sleep(0.005)
             res["before"] = census(it)
+            started = sum(1 for x in made if x.machine.id == "kid" and x.status == "running")
+            if started < want or (case["grandchild"] and sum(1 for x in made if x.machine.id == "leaf" and x.status == "running") < want):
+                # a runner thread has not started its child yet (loaded host): stopping now would race with that thread - not judged
+                res["inconclusive"] = "children not running after 3 s"
             it.stop()
             if case["call_stop_twice"]:
                 it.stop()
@@ -297,7 +301,7 @@ def run_failed_start(case):
 
 
 def failed_start_monitor(res):
-    if "harness_exc" in res or "after" not in res:
+    if "harness_exc" in res or "after" not in res or "inconclusive" in res:
         return []
     case, after = res["case"], res["after"]
     if case["where"] != "none" and res.get("start") == "ok":
@@ -317,9 +321,10 @@ def failed_start_component(cases):
     from concurrent.futures import ProcessPoolExecutor
     with ProcessPoolExecutor(max_workers=12) as ex:
         results = list(ex.map(run_failed_start, cases, chunksize=2))
-    fails, stats = [], dict(cases=len(cases), judged=0, start_failed=0, children_alive_before_stop=0)
+    fails, stats = [], dict(cases=len(cases), judged=0, start_failed=0, children_alive_before_stop=0, inconclusive=0)
     for case, res in zip(cases, results):
-        if "harness_exc" in res or "after" not in res:
+        if "harness_exc" in res or "after" not in res or "inconclusive" in res:
+            stats["inconclusive"] += 1
             continue
         stats["judged"] += 1
         stats["start_failed"] += res.get("start") != "ok"
